@@ -24,6 +24,8 @@ def simcheck(design, text, technique="stateful property-based testing (rapid) of
 
 CHECKS.update({
     "C01": simcheck("§4 C01", "Generated races of conflicting completions, creations, reads, searches, registrations, claims, time-outs, faults and crashes on 3 ids; oracle I1-I4: rows never vanish, creation half frozen, one transition out of pending, then frozen; every promise leaving the server (responses, search hits, claim payloads, notifications) agrees with the stored row at that instant."),
+    "C02": simcheck("§4 C02", "Generated workloads of all 17 request kinds over shared ids under every configuration knob and schedule (holds, batches, faults). Oracle (self-differential, atomic-snapshot explanation): every request's response and own effect must be reproduced by running the real coroutine alone on a committed snapshot of its window at a clock value of its window; failed requests must have left nothing or exactly the sequential effect; an effect sits in one transaction. A pass is a constructive linearization. Blind to sequentially-wrong behaviour by design (covered by C03/C04/C07/C09/C10). Found F15 (repaired).",
+                    technique="stateful property-based testing (rapid) with a differential oracle: concurrent run vs. the same coroutine run alone on the per-transaction snapshot"),
     "C03": simcheck("§4 C03", "Generated histories of create / create-with-task / complete on 1-2 ids crossed with key, strict, state, timing around the deadline, plus exact retries (after response, after lost response, racing, after crash); oracle: status table written from the statement and justified by a committed state inside the request window; at most one creation, one completion and one invocation task per id; no repeat changes a row."),
     "C04": simcheck("§4 C04", "Generated deadlines on the tick grid with requests and sweeps landing before/at/after them; oracle O1-O4: no pending answer at or after the deadline, no time-out stored or reported before it, timed-out rows have empty value / no key / completed_on = timeout / resolve-on-timeout honoured, caller state never installed at or after the deadline. F13 (new promise already overdue answered 201 PENDING) is a listed known finding."),
     "C07": simcheck("§4 C07", "Generated claim/complete/heartbeat traffic of two workers with current, stale and future counters against lease sweeps, dispatch cycles and promise completion; oracle T1-T6: claims only from unclaimed+matching counter, one success per (task,counter), counters monotone, finished is final, a holder loses the task only after its guaranteed lease (claim or last timely heartbeat + ttl), by its own completion, task time-out or promise completion; refusals justified by a committed state in the window."),
